@@ -3,6 +3,7 @@
 import json, subprocess
 
 HOOK_COMMITS = ["ac08067"]
+FIX_COMMITS = ["ee1d815", "296be57", "098316b", "7098e6b", "bcffdd6", "589a9d1"]
 
 # id -> (technique, level text, level note, design ref)
 CHECKS = {
@@ -15,6 +16,15 @@ CHECKS = {
  "C03": ("bounded-exhaustive description-space exploration (E1) against a reference realisability model, both directions",
          "Every single-type description of the bounded space is run through the real pipeline at widths 4 and 8 and the Ok/Err verdict is compared with the reference model's realisability predicate on every element (spurious acceptances and spurious rejections both show); resolved size/alignment of accepted cases are compared with the model.",
          "The model encodes the statement's predicate; its alignment-defaulting rule is cross-checked against the resolved item on every accepted case.", "DESIGN.md §6 C03"),
+ "C08": ("bounded-exhaustive enumeration of enum descriptions (E1); reference discriminant model, rustc const asserts on both widths, syn inspection of the default marker",
+         "Every enum over the ten integer bases with all value vectors up to length 3 over a boundary alphabet, all default-marker subsets x defaultable, and long families up to 32 variants ending exactly at / one past the base's maximum is pushed through the real pipeline; rejections demanded by the statement are checked, accepted cases are compared with the model's values (registry), compiled by rustc with `E::V as base == value`, size and alignment asserts, and the #[default] variant is located with syn.",
+         "rustc semantics of #[derive(Default)]/#[default]; values beyond isize are unspellable in the language.", "DESIGN.md §6 C08"),
+ "C09": ("explicit-state exploration of resolution schedules (E2) on the real resolver through the cfg(pyxis_verif) hook: BFS over per-pass worklist permutations with registry-state de-duplication, times all module-addition orders",
+         "For every input set of an order-sensitive corpus (late-generated vftable items referenced from fields, signatures, extern values and imports; derived types; all small dependency graphs) every module-addition order and every resolution schedule (all permutations of the worklist at every pass, <= 6 user types) is executed on the real SemanticState::build; all executions of one input set must agree on Ok/Err and on the bytes of every output file.",
+         "The hook permutes the worklist at pass boundaries only; a divergence while replaying a schedule prefix is a machinery error. Hash-seed variation beyond the worklist order is covered by repeated in-process builds (reported separately).", "DESIGN.md §6 C09"),
+ "C10": ("bounded-exhaustive enumeration of dependency graphs (E1) against a fixpoint model of resolvability, plus schedule exploration (E2) of the small graphs",
+         "Every dependency graph over up to 3 types (4 thorough) x edge kinds (by value, array, base, pointer, built-in, undefined name) x module assignments, chains to length 12 in three declaration orders, by-value cycles to length 6, pointer cycles, and undefined names in non-field positions is run through the real pipeline; Ok iff the model says resolvable, every declared field present with the declared type (syn), the error's type list equals the model's set, and the verdict is the same under every resolution schedule.",
+         "Types with more than one field are packed so layout rules do not mask resolution verdicts.", "DESIGN.md §6 C10"),
 }
 
 NOT_YET = {
